@@ -2,11 +2,12 @@
    Stated over header lists: [hdrs_ci hs hs'] = same length, names equal up to ASCII case,
    values equal up to ASCII case (so in particular any case pattern of Content-Length,
    Transfer-Encoding, Trailer, Content-Encoding, Content-Type and of the tokens chunked, gzip,
-   deflate, text, charset).  The header-block parser stores names and values verbatim
-   (Model/Headers.v), so case variants of a message give [hdrs_ci]-related lists. *)
+   deflate, text, charset), and -- C18_*_bytes below -- over the message bytes: any change of
+   ASCII letter case inside the header block leaves verdict, boundary, start-line fields, body
+   and trailing data unchanged and the stored header lists equal up to letter case. *)
 From Coq Require Import String.
 From Http Require Import Model.Bytes Model.Num Model.Headers Model.Request Model.Response
-     Model.Coding Proofs.CaseLemmas.
+     Model.Chunked Model.Coding Spec.ChunkedGrammar Proofs.CaseLemmas Proofs.CaseBytes Proofs.CaseEndToEnd.
 
 (* every lookup the crate performs is blind to letter case *)
 Theorem C18_lookups_ignore_case :
@@ -72,6 +73,57 @@ Theorem C18_decode_text_ignores_case :
       decode_text enc for_label enc_decode hs body = decode_text enc for_label enc_decode hs' body.
 Proof. exact decode_text_ci. Qed.
 Print Assumptions C18_decode_text_ignores_case.
+
+(* ---- at the level of bytes ---- *)
+(* the header-block parser is transparent to letter case: same answer, same count, lists equal
+   up to case *)
+Theorem C18_header_block_parser_ignores_case :
+  forall lim (hs0 hs0' : list header) (s s' : bytes),
+    hdrs_ci hs0 hs0' -> ci_eq s s' -> hres_ci (hdr_parse lim hs0 s) (hdr_parse lim hs0' s').
+Proof. exact hdr_parse_ci. Qed.
+Print Assumptions C18_header_block_parser_ignores_case.
+
+(* a response whose header block is [block], and the same bytes with any other letter case in
+   the header block: same verdict and consumed count (so same boundary), same code, reason, body
+   and trailing data, same parser phase; stored headers equal up to case (also after the
+   de-chunking rewrite) *)
+Theorem C18_response_bytes :
+  forall (l block block' rest : bytes) (hs : list header),
+    is_line l -> ci_eq block block' -> hdr_parse None [] block = HComplete hs (length block) ->
+    let r := resp_parse resp_init (l ++ CRLF ++ block ++ rest) in
+    let r' := resp_parse resp_init (l ++ CRLF ++ block' ++ rest) in
+    snd r = snd r' /\ resp_st_ci (fst r) (fst r').
+Proof. exact response_case_insensitive. Qed.
+Print Assumptions C18_response_bytes.
+
+Theorem C18_request_bytes :
+  forall (uri : Type) (uri_parse : bytes -> option uri) cfg (l block block' rest : bytes) (hs : list header),
+    is_line l -> ci_eq block block' -> hdr_parse (hl cfg) [] block = HComplete hs (length block) ->
+    let r := req_parse uri uri_parse cfg req_init (l ++ CRLF ++ block ++ rest) in
+    let r' := req_parse uri uri_parse cfg req_init (l ++ CRLF ++ block' ++ rest) in
+    snd r = snd r' /\ req_st_ci uri (fst r) (fst r').
+Proof. exact request_case_insensitive. Qed.
+Print Assumptions C18_request_bytes.
+
+Check (eq_refl : resp_st_ci = fun st st' =>
+  s_phase st = s_phase st' /\ s_code st = s_code st' /\ s_reason st = s_reason st' /\
+  hdrs_ci (s_headers st) (s_headers st') /\ s_body st = s_body st' /\ s_trailer st = s_trailer st').
+
+Theorem C18_dechunk_rewrite_ignores_case :
+  forall (hs hs' tr : list header) (body : bytes),
+    hdrs_ci hs hs' -> hdrs_ci (dechunk_headers hs tr body) (dechunk_headers hs' tr body).
+Proof. exact dechunk_headers_ci. Qed.
+Print Assumptions C18_dechunk_rewrite_ignores_case.
+
+Example C18_bytes_example :
+  let l := str "HTTP/1.1 200 OK"%string in
+  let b := str "Transfer-Encoding: gzip, chunked"%string ++ CRLF ++ CRLF in
+  let b' := str "TRANSFER-encoding: GZip, CHUNKED"%string ++ CRLF ++ CRLF in
+  let rest := str "2"%string ++ CRLF ++ str "hi"%string ++ CRLF ++ str "0"%string ++ CRLF ++ CRLF ++ str "Z"%string in
+  ci_eq b b' /\ is_line l /\
+  snd (resp_parse resp_init (l ++ CRLF ++ b ++ rest)) = Complete (17 + 36 + 12) /\
+  snd (resp_parse resp_init (l ++ CRLF ++ b' ++ rest)) = Complete (17 + 36 + 12).
+Proof. vm_compute. repeat split. Qed.
 
 Example C18_example :
   hdrs_ci [(str "content-LENGTH"%string, str "3"%string); (str "TRANSFER-encoding"%string, str "GZip, CHUNKED"%string)]
